@@ -176,6 +176,33 @@ MUTANTS = [
             self.emit_byte(OpCode::EndFinally as u8);
         }
 ''')]},
+    # ---- C06 ----------------------------------------------------------------------------------------
+    {'name': 'S1 unwind_stack drops slots without closing upvalues', 'prop': 'C06', 'expect': 'S1 / yarel::vm::Vm::unwind_stack / truncate',
+     'edits': [(VM, '''        self.active_fiber_mut()
+            .close_upvalues(handler.init_stack_size);
+''', '')]},
+    {'name': 'S1 return truncates before closing', 'prop': 'C06', 'expect': 'S1 / yarel::vm::Vm::return_impl / truncate',
+     'edits': [(VM, "        let result = self.pop();\n        self.active_fiber_mut().close_upvalues_for_frame();\n", "        let result = self.pop();\n")]},
+    {'name': 'S2 captured locals are popped, others closed (swapped)', 'prop': 'C06', 'expect': 'S2 / emit_scope_end',
+     'edits': [(COMP, '''            let opcode = if local.is_captured {
+                OpCode::CloseUpvalue
+            } else {
+                OpCode::Pop
+            };''', '''            let opcode = if local.is_captured {
+                OpCode::Pop
+            } else {
+                OpCode::CloseUpvalue
+            };''')]},
+    {'name': 'S2 capture no longer marks the declaring local', 'prop': 'C06', 'expect': 'S2 / Local.is_captured is set only by resolve_upvalue',
+     'edits': [(COMP, "                self.compilers[enclosing].locals[index as usize].is_captured = true;\n", "")]},
+    {'name': 'S3 lambda emits index before is_local', 'prop': 'C06', 'expect': 'S3 / lambda: emits is_local then index',
+     'edits': [(COMP, '''        for upvalue in upvalues.iter() {
+            s.emit_byte(upvalue.is_local as u8);
+            s.emit_byte(upvalue.index as u8);
+        }''', '''        for upvalue in upvalues.iter() {
+            s.emit_byte(upvalue.index as u8);
+            s.emit_byte(upvalue.is_local as u8);
+        }''')]},
 ]
 
 BENIGN = [
